@@ -906,4 +906,69 @@ func c17Long(R *ev.Run) {
 		}
 	}
 	R.Part("long-series", "cases", 9)
+	// long backlogs: results that wait by the thousand for one or two late ones
+	{
+		const n = 4001
+		rs := make([]c17Res, n)
+		for i := range rs {
+			rs[i] = c17Res{attack: "a", seq: uint64(i), ts: c17T0.Add(time.Duration(i) * time.Millisecond), lat: time.Duration(c17Shape(1, i) * 1e6), fail: i%7 == 3}
+		}
+		orders := map[string][]int{}
+		var o []int
+		for i := 1; i < n; i++ {
+			o = append(o, i)
+		}
+		orders["first-result-arrives-last"] = append(o, 0)
+		o = nil
+		for i := 1; i < 1500; i++ {
+			if i != 700 {
+				o = append(o, i)
+			}
+		}
+		o = append(o, 0, 700)
+		for i := 1500; i < n; i++ {
+			o = append(o, i)
+		}
+		orders["two-late-results-behind-a-backlog-of-1498"] = o
+		o = nil
+		for b := 0; b < n; b += 1500 {
+			hi := b + 1500
+			if hi > n {
+				hi = n
+			}
+			for i := hi - 1; i >= b; i-- {
+				o = append(o, i)
+			}
+		}
+		orders["blocks-of-1500-reversed"] = o
+		names := make([]string, 0, len(orders))
+		for k := range orders {
+			names = append(names, k)
+		}
+		sort.Strings(names)
+		for _, name := range names {
+			R.Eval(1)
+			R.Trans(n + 2)
+			R.Distinct("long-backlog " + name)
+			p, err := c17Plot(rs, orders[name])
+			if err != nil {
+				R.Violation("plot:long-backlog:add-error", name+": "+err.Error())
+				continue
+			}
+			rows, labels, derr := c17Data(p)
+			if derr != nil {
+				R.Violation("plot:long-backlog:data-error", name+": "+derr.Error())
+				continue
+			}
+			pts, bad := c17Decode(rows, labels)
+			if len(bad) > 0 {
+				R.Violation("plot:long-backlog:"+bad[0].key, name+": "+fmt.Sprint(bad[0].detail))
+				continue
+			}
+			if len(pts) != n {
+				R.Violation("plot:long-backlog:points-missing", fmt.Sprintf("arrival order %s: %d points plotted for %d results", name, len(pts), n))
+			}
+		}
+		R.Part("long-series", "long backlogs", len(names))
+	}
 }
